@@ -116,6 +116,18 @@ func jobsFor(prop, tier string) []Job {
 				add("enum", fmt.Sprintf("treebidimap.%s.%s.u%d", kc, vc, n), 8, map[string]string{"c": "treebidimap", "cmp": kc, "vcmp": vc}, map[string]int{"u": n, "vu": pick(3, 4), "maxn": n})
 			}
 		}
+	case "C15":
+		for _, jb := range allContainerJobs(q) {
+			jb.p["depth"] = pick(1, 2)
+			if c := jb.s["c"]; !q && (c == "arraylist" || c == "singlylinkedlist" || c == "doublylinkedlist") {
+				jb.p["n"] = 5 // the list alphabet is ~200 operations per state; depth-2 differential stays affordable
+			}
+			add("c15", jb.id, jb.w, jb.s, jb.p)
+		}
+	case "C16":
+		for _, jb := range allContainerJobs(q) {
+			add("snap", jb.id, jb.w, jb.s, jb.p)
+		}
 	case "C09":
 		u := pick(5, 6)
 		add("linked", fmt.Sprintf("linkedhashmap.u%d", u), 2, map[string]string{"c": "linkedhashmap"}, map[string]int{"u": u})
@@ -130,6 +142,53 @@ func jobsFor(prop, tier string) []Job {
 		}
 	}
 	return jobs
+}
+
+type cjob struct {
+	id string
+	w  int
+	s  map[string]string
+	p  map[string]int
+}
+
+// allContainerJobs: one bounded state search per container kind and configuration,
+// shared by the "all 21 containers" properties (C11, C12, C15, C16, C17, C18).
+func allContainerJobs(q bool) []cjob {
+	pick := func(a, b int) int {
+		if q {
+			return a
+		}
+		return b
+	}
+	n := pick(4, 6)
+	var js []cjob
+	for _, c := range []string{"arraylist", "singlylinkedlist", "doublylinkedlist"} {
+		js = append(js, cjob{c, 6, map[string]string{"c": c}, map[string]int{"n": n, "u": 2}})
+	}
+	for _, c := range []string{"arraystack", "linkedliststack", "arrayqueue", "linkedlistqueue"} {
+		js = append(js, cjob{c, 2, map[string]string{"c": c}, map[string]int{"n": n, "u": 2}})
+	}
+	for cp := 1; cp <= pick(3, 5); cp++ {
+		js = append(js, cjob{fmt.Sprintf("circularbuffer%d", cp), 1, map[string]string{"c": "circularbuffer"}, map[string]int{"cap": cp, "u": 2}})
+	}
+	for _, c := range []string{"binaryheap", "priorityqueue"} {
+		js = append(js, cjob{c, 3, map[string]string{"c": c}, map[string]int{"n": n, "pmax": 2, "jsonlen": 2}})
+	}
+	js = append(js, cjob{"hashset", 1, map[string]string{"c": "hashset"}, map[string]int{"u": n}})
+	js = append(js, cjob{"linkedhashset", 2, map[string]string{"c": "linkedhashset"}, map[string]int{"u": n}})
+	js = append(js, cjob{"treeset", 2, map[string]string{"c": "treeset"}, map[string]int{"u": n}})
+	js = append(js, cjob{"hashmap", 1, map[string]string{"c": "hashmap"}, map[string]int{"u": n}})
+	js = append(js, cjob{"linkedhashmap", 2, map[string]string{"c": "linkedhashmap"}, map[string]int{"u": n}})
+	js = append(js, cjob{"treemap", 2, map[string]string{"c": "treemap"}, map[string]int{"u": n + 1}})
+	js = append(js, cjob{"hashbidimap", 1, map[string]string{"c": "hashbidimap"}, map[string]int{"u": pick(3, 4)}})
+	js = append(js, cjob{"treebidimap", 2, map[string]string{"c": "treebidimap"}, map[string]int{"u": pick(3, 4)}})
+	tn := pick(7, 10)
+	js = append(js, cjob{"rbt", 5, map[string]string{"c": "rbt"}, map[string]int{"n": tn, "rank": 1}})
+	js = append(js, cjob{"avl", 5, map[string]string{"c": "avl"}, map[string]int{"n": tn, "rank": 1}})
+	for _, m := range []int{3, 4, 5} {
+		js = append(js, cjob{fmt.Sprintf("btree%d", m), 5, map[string]string{"c": "btree"}, map[string]int{"m": m, "n": tn + 1, "rank": 1}})
+	}
+	return js
 }
 
 func bidiJobs(prop string, q bool, add func(kind, id string, w int, s map[string]string, p map[string]int)) {
